@@ -89,7 +89,7 @@ def main():
     out = {'seed': seed, 'confirm': confirm(seed)}
     if out['confirm'].get('confirmed') and props:
         out['checks'] = run_checks(seed, props)
-    json.dump(out, open(os.path.join(seed, 'result.json'), 'w'), indent=1, default=repr)
+    json.dump(out, open(os.path.join(seed, os.environ.get('SEED_OUT', 'result.json')), 'w'), indent=1, default=repr)
     c = out['confirm']
     print(seed, 'confirmed' if c.get('confirmed') else 'NOT-CONFIRMED %r' % c)
     for p, r in out.get('checks', {}).items():
